@@ -4,54 +4,61 @@
    mapstructure / ozzo), tied to the code by the correspondence runs of harness/cmd/c15. *)
 From Coq Require Import List ZArith Bool String.
 Import ListNotations.
-From GU Require Import C15.Model C15.Proofs C15.ProofsNames C15.ProofsValid.
+From GU Require Import C15.Model C15.Proofs C15.ProofsNames C15.ProofsTop C15.ProofsValid.
 Local Open Scope Z_scope.
 
 (* ---- precedence ---- *)
-(* For EVERY structure (any depth, any number of fields), every environment, file, set of bound flags and prefix:
-   each leaf whose key is not shadowed (see [adequate]) ends up holding [spec_val]: the explicitly set flag bound to it,
-   else its environment variable, else the file's value, else the supplied default — derived from the layer mechanics
-   (MergeConfigMap, MergeInConfig, the loop of linkFlagKeysToStructureKeys writing overrides / defaults, viper.find). *)
+(* For EVERY structure (any depth, any number of fields), every environment, file, set of bound flags and prefix
+   (the empty prefix and prefixes that are a prefix of a key included): each leaf whose key is not shadowed (see
+   [unshadowed]: no variable or flag named like an enclosing path) ends up holding [spec_val]: the explicitly set flag
+   bound to it, else its environment variable, else the file's value, else the supplied default — derived from the layer
+   mechanics (MergeConfigMap, MergeInConfig, the loop of linkFlagKeysToStructureKeys writing overrides / defaults over an
+   arbitrary key list, viper.find, the spelling of flag keys and bound variables), not assumed. *)
 Theorem load_precedence : forall w sc k t d,
   NoDup (map fst (leaves [] sc)) -> In (k, (t, d)) (leaves [] sc) ->
-  is_flagkey k = false -> adequate w k ->
-  final_val true w sc k = Some (spec_val w k d).
-Proof. exact load_precedence_l. Qed.
+  is_flagkey k = false -> unshadowed w k ->
+  final_val fixed w sc k = Some (spec_val fixed w k d).
+Proof. exact load_precedence_fixed_l. Qed.
 Print Assumptions load_precedence.
 
 (* [spec_val] spelled out, clause by clause, in the order of the property *)
 Theorem precedence_order : forall w k d,
-  (forall t fd a, lookup (flagkey (w_prefix w) k) (bound_flags w) = Some (t, fd, Some a) -> spec_val w k d = rep_flag t a) /\
-  (forall v, (forall t fd a, lookup (flagkey (w_prefix w) k) (bound_flags w) <> Some (t, fd, Some a)) ->
-             getenv w (autoenv (w_prefix w) k) = Some v -> spec_val w k d = v) /\
-  (forall v, lookup (flagkey (w_prefix w) k) (bound_flags w) = None -> getenv w (autoenv (w_prefix w) k) = None ->
-             lookup k (file_cfg w) = Some v -> spec_val w k d = v) /\
-  (lookup (flagkey (w_prefix w) k) (bound_flags w) = None -> getenv w (autoenv (w_prefix w) k) = None ->
-   lookup k (file_cfg w) = None -> spec_val w k d = rep_default d) /\
-  (forall t fd, lookup (flagkey (w_prefix w) k) (bound_flags w) = Some (t, fd, None) ->
+  let fl := lookup (flagkey fixed (w_prefix w) k) (bound_flags w) in
+  (forall t fd a, fl = Some (t, fd, Some a) -> spec_val fixed w k d = rep_flag t a) /\
+  (forall v, (forall t fd a, fl <> Some (t, fd, Some a)) ->
+             getenv w (autoenv (w_prefix w) k) = Some v -> spec_val fixed w k d = v) /\
+  (forall v, fl = None -> getenv w (autoenv (w_prefix w) k) = None ->
+             lookup k (file_cfg w) = Some v -> spec_val fixed w k d = v) /\
+  (fl = None -> getenv w (autoenv (w_prefix w) k) = None ->
+   lookup k (file_cfg w) = None -> spec_val fixed w k d = rep_default d) /\
+  (forall t fd, fl = Some (t, fd, None) ->
      getenv w (autoenv (w_prefix w) k) = None ->
      let cv := match lookup k (file_cfg w) with Some v => v | None => rep_default d end in
-     is_empty cv = false -> spec_val w k d = cv).
+     is_empty cv = false -> spec_val fixed w k d = cv).
 Proof.
-  intros w k d. split; [|split; [|split; [|split]]].
+  intros w k d fl. unfold fl. split; [|split; [|split; [|split]]].
   - intros; eapply spec_flag_wins; eauto.
   - intros; eapply spec_env_next; eauto.
   - intros; eapply spec_file_next; eauto.
   - intros; eapply spec_default_last; eauto.
-  - intros t fd H1 H2. apply (spec_unset_flag_does_not_outrank w k d t fd H1 H2).
+  - intros t fd H1 H2. apply (spec_unset_flag_does_not_outrank fixed w k d t fd H1 H2).
 Qed.
 Print Assumptions precedence_order.
 
-(* the variable BindFlagToEnv binds is the one AutomaticEnv consults — hypothesis [ad_bound] of [adequate] holds for
-   every key that is spelled in lower case and does not itself start with the prefix *)
+(* the variable BindFlagToEnv binds for a flag is the one AutomaticEnv consults for the structure key the flag is linked
+   to — for every prefix (empty included) and every spelling of the envVar argument *)
 Theorem bound_env_is_auto_env : forall w k ev,
-  w_prefix w <> [] -> lower k = k -> has_prefix k (lower (w_prefix w)) = false ->
-  flagkey_of_short (short_of ev (w_prefix w)) = flagkey (w_prefix w) k ->
-  cleanse (w_prefix w) (short_of ev (w_prefix w)) = autoenv (w_prefix w) k.
+  flagkey_of_short (short_of ev (w_prefix w)) = flagkey fixed (w_prefix w) k ->
+  cleanse fixed (w_prefix w) (short_of ev (w_prefix w)) = autoenv (w_prefix w) k.
 Proof. exact bound_env_is_auto_env_l. Qed.
 Print Assumptions bound_env_is_auto_env.
 
-(* D23 — the code BEFORE the repair (flags linked before the file is merged) does not have the property:
+(* fields at the top level have no enclosing path: the shadowing side condition on the key is vacuous for them *)
+Theorem top_level_never_shadowed : forall w k, nodot k = true -> env_shadow w k = false.
+Proof. exact top_level_unshadowed. Qed.
+Print Assumptions top_level_never_shadowed.
+
+(* D23 — the code BEFORE the first repair (flags linked before the file is merged) does not have the property:
    empty supplied default, value in the file, bound flag not set with a non-empty default: the flag default wins. *)
 Definition d23_world : world :=
   mkW (str_of "app") [] [(str_of "NAME", TStr, AStr (str_of "flagdefault"), None)] [(str_of "name", VStr (str_of "fromfile"))].
@@ -59,18 +66,38 @@ Definition d23_schema : schema := Node VOwnOnly [(str_of "Name", str_of "name", 
 
 Theorem load_precedence_before_repair_refuted :
   exists w sc k t d,
-    NoDup (map fst (leaves [] sc)) /\ In (k, (t, d)) (leaves [] sc) /\ is_flagkey k = false /\ adequate w k /\
-    spec_val w k d = VStr (str_of "fromfile") /\
-    final_val false w sc k = Some (VStr (str_of "flagdefault")) /\
-    final_val true w sc k = Some (VStr (str_of "fromfile")).
+    NoDup (map fst (leaves [] sc)) /\ In (k, (t, d)) (leaves [] sc) /\ is_flagkey k = false /\ unshadowed w k /\
+    spec_val fixed w k d = VStr (str_of "fromfile") /\
+    final_val (mkV false false false) w sc k = Some (VStr (str_of "flagdefault")) /\
+    final_val original w sc k = Some (VStr (str_of "flagdefault")) /\
+    final_val fixed w sc k = Some (VStr (str_of "fromfile")).
 Proof.
   exists d23_world, d23_schema, (str_of "name"), TStr, (AStr []).
   split; [repeat constructor; simpl; tauto|]. split; [left; reflexivity|]. split; [reflexivity|].
-  split; [|split; [|split]]; try (vm_compute; reflexivity).
-  constructor; try (vm_compute; reflexivity).
-  intros n H. vm_compute in H. inversion H. vm_compute. reflexivity.
+  split; [constructor; vm_compute; reflexivity|].
+  repeat split; vm_compute; reflexivity.
 Qed.
 Print Assumptions load_precedence_before_repair_refuted.
+
+(* the code BEFORE the second repair (the prefix stripped from structure keys in linkFlagKeysToStructureKeys):
+   under prefix "t" the key "title" was given the flag key of a field "itle"; its own, explicitly set flag was ignored. *)
+Definition strip_world : world :=
+  mkW (str_of "t") [] [(str_of "T_TITLE", TStr, AStr [], Some (AStr (str_of "fromflag")))] [].
+Definition strip_schema : schema := Node VOwnOnly [(str_of "Title", str_of "title", Leaf TStr (AStr (str_of "dflt")) false)].
+
+Theorem load_precedence_prefix_strip_refuted :
+  exists w sc k t d,
+    NoDup (map fst (leaves [] sc)) /\ In (k, (t, d)) (leaves [] sc) /\ is_flagkey k = false /\ unshadowed w k /\
+    spec_val fixed w k d = VStr (str_of "fromflag") /\
+    final_val (mkV true true false) w sc k = Some (VStr (str_of "dflt")) /\
+    final_val fixed w sc k = Some (VStr (str_of "fromflag")).
+Proof.
+  exists strip_world, strip_schema, (str_of "title"), TStr, (AStr (str_of "dflt")).
+  split; [repeat constructor; simpl; tauto|]. split; [left; reflexivity|]. split; [reflexivity|].
+  split; [constructor; vm_compute; reflexivity|].
+  repeat split; vm_compute; reflexivity.
+Qed.
+Print Assumptions load_precedence_prefix_strip_refuted.
 
 (* FINDING (not repaired) — without the no-shadowing side condition the property is false of the model, and of the code:
    the environment variable of the field srv.cfg (APP_SRV_CFG) is also the name viper derives for the STRUCTURE srv_cfg;
@@ -84,12 +111,12 @@ Definition shadow_schema : schema :=
 Theorem load_precedence_env_shadow_refuted :
   exists w sc k t d,
     NoDup (map fst (leaves [] sc)) /\ In (k, (t, d)) (leaves [] sc) /\ is_flagkey k = false /\
-    (* the only variable set is the variable of another field of the structure *)
+    (* the only variable set is the variable of another field of the structure, and no two fields share a variable *)
     map fst (w_environ w) = [autoenv (w_prefix w) (str_of "srv.cfg")] /\ In (str_of "srv.cfg") (map fst (leaves [] sc)) /\
     NoDup (honoured (w_prefix w) sc) /\
-    spec_val w k d = VNum 7 /\                      (* the file's value is what the property demands *)
-    final_val true w sc k = None /\                 (* … but the field receives nothing, not even its default *)
-    load true w sc = Loaded [AStr (str_of "x"); ANum 0].
+    spec_val fixed w k d = VNum 7 /\                (* the file's value is what the property demands *)
+    final_val fixed w sc k = None /\                 (* … but the field receives nothing, not even its default *)
+    load fixed w sc = Loaded [AStr (str_of "x"); ANum 0].
 Proof.
   exists shadow_world, shadow_schema, (str_of "srv_cfg.port"), TInt, (ANum 5).
   split; [vm_compute; repeat constructor; simpl; intuition discriminate|].
@@ -101,20 +128,27 @@ Qed.
 Print Assumptions load_precedence_env_shadow_refuted.
 
 (* ---- environment-variable names ---- *)
-(* For EVERY structure whose tags are non-empty and contain no "." and every non-empty prefix without ".":
+(* For EVERY structure whose tags are non-empty and contain no "." and every prefix without "." (the empty one included):
    the names DetermineConfigurationEnvironmentVariables reports (flattenDefaultsMap + prefixing) are, field by field
    and in order, the names loading consults (mergeWithEnvPrefix + the "." -> "_" key replacer on the lower-cased key). *)
 Theorem env_names_agree : forall prefix m fs,
-  prefix <> [] -> nodot prefix = true -> tags_ok (Node m fs) ->
-  reported prefix (Node m fs) = honoured prefix (Node m fs).
+  nodot prefix = true -> tags_ok (Node m fs) ->
+  reported fixed prefix (Node m fs) = honoured prefix (Node m fs).
 Proof. exact env_names_agree_l. Qed.
 Print Assumptions env_names_agree.
+
+(* before the third repair the reported names carried a leading "_" when the prefix is empty *)
+Theorem env_names_empty_prefix_refuted :
+  exists sc, tags_ok sc /\
+    reported original [] sc = [str_of "_NAME"] /\ honoured [] sc = [str_of "NAME"] /\ reported fixed [] sc = [str_of "NAME"].
+Proof. exists d23_schema. repeat split; vm_compute; reflexivity. Qed.
+Print Assumptions env_names_empty_prefix_refuted.
 
 (* ---- validation ---- *)
 (* Loading succeeds only if no required field of a validated level is empty … *)
 Theorem load_validates : forall w sc vs,
-  load true w sc = Loaded vs ->
-  unmarshal true w sc = Some vs /\
+  load fixed w sc = Loaded vs ->
+  unmarshal fixed w sc = Some vs /\
   forall tr, ~ offender (combine (map fst (leaves [] sc)) vs) [] sc tr.
 Proof. exact load_validates_l. Qed.
 Print Assumptions load_validates.
@@ -122,17 +156,14 @@ Print Assumptions load_validates.
 (* … and otherwise returns the invalid error, whose tree path names an offending field: the Go field names of the
    enclosing structures followed by the tag of a required leaf that is empty. *)
 Theorem load_invalid_names_offender : forall w sc vs tr ms,
-  load true w sc = Invalid vs tr ms ->
-  unmarshal true w sc = Some vs /\ offender (combine (map fst (leaves [] sc)) vs) [] sc tr.
+  load fixed w sc = Invalid vs tr ms ->
+  unmarshal fixed w sc = Some vs /\ offender (combine (map fst (leaves [] sc)) vs) [] sc tr.
 Proof. exact load_invalid_names_offender_l. Qed.
 Print Assumptions load_invalid_names_offender.
 
 (* ---- non-vacuity ---- *)
-Example c15_adequate_satisfiable : adequate d23_world (str_of "name").
-Proof.
-  constructor; try (vm_compute; reflexivity).
-  intros n H. vm_compute in H. inversion H. vm_compute. reflexivity.
-Qed.
+Example c15_unshadowed_satisfiable : unshadowed d23_world (str_of "name").
+Proof. constructor; vm_compute; reflexivity. Qed.
 
 Definition demo_world : world :=
   mkW (str_of "Test")
@@ -149,11 +180,11 @@ Definition demo_schema : schema :=
                                   (str_of "User", str_of "user", Leaf TStr (AStr []) true);
                                   (str_of "Password", str_of "password", Leaf TStr (AStr []) true)])].
 Example c15_demo_load :
-  load true demo_world demo_schema =
+  load fixed demo_world demo_schema =
   Invalid [AStr (str_of "s"); AStr (str_of "host2"); ANum 9090; AStr (str_of "flagdb"); AStr (str_of "a user"); AStr []]
           [str_of "TestConfig2"; str_of "password"] (str_of "TEST_DUMMY_CONFIG").
 Proof. vm_compute. reflexivity. Qed.
 Example c15_demo_names :
-  reported (str_of "Test") demo_schema = honoured (str_of "Test") demo_schema /\
-  In (str_of "TEST_DUMMY_CONFIG_PASSWORD") (reported (str_of "Test") demo_schema).
+  reported fixed (str_of "Test") demo_schema = honoured (str_of "Test") demo_schema /\
+  In (str_of "TEST_DUMMY_CONFIG_PASSWORD") (reported fixed (str_of "Test") demo_schema).
 Proof. split; vm_compute; [reflexivity|tauto]. Qed.
